@@ -127,6 +127,8 @@ void vrt_config(int nthreads, int *schedule, int len, int logacc) {
     sched_len = len;
     log_acc = logacc;
 }
+static size_t arena_top;
+static int nblk;
 void vrt_reset(void) {
     npoints = 0;
     nacc = 0;
@@ -140,6 +142,8 @@ void vrt_reset(void) {
     nrg = 0;
     kernel_top = NULL;
     blk_overflow = 0;
+    arena_top = 0;
+    nblk = 0;
     epoch++;
     phase = 0;
     if (!pt_nen) {
@@ -192,20 +196,45 @@ void vrt_register_clear(void) { nregbuf = 0; }
 void vrt_register(const void *p, size_t n) { if (nregbuf < MAXBUF) { regbuf[nregbuf].p = p; regbuf[nregbuf].n = n; nregbuf++; } }
 #define MAXBLK 256
 static struct { unsigned char *p; size_t n; } blk[MAXBLK];
-static int nblk = 0;
 static void blk_add(void *p, size_t n) { if (!p) return; if (nblk < MAXBLK) { blk[nblk].p = p; blk[nblk].n = n; nblk++; } else blk_overflow = 1; }
 static void blk_del(void *p) { for (int i = 0; i < nblk; i++) if (blk[i].p == p) { blk[i] = blk[nblk - 1]; nblk--; return; } }
-void *vrt_malloc(size_t n) { void *p = calloc(1, n ? n : 1); blk_add(p, n); return p; } /* zero-filled: deterministic */
-void *vrt_calloc(size_t a, size_t b) { void *p = calloc(a ? a : 1, b ? b : 1); blk_add(p, a * b); return p; }
+/* The kernels' heap is a private arena that is rewound at every vrt_reset(): the k-th allocation of an execution gets the same
+ * address in every execution that allocates in the same order, so the explorer's conflict set (a set of addresses) reaches a
+ * fixpoint also for kernels that malloc.  Blocks are zero-filled (deterministic content); free() only rewinds when the block is
+ * the most recent one.  A block that outlives the execution (a pointer kept in a static by the code under test) dangles after the
+ * rewind - the resulting interference is exactly what the two-callers exploration is there to expose. */
+#define ARENA_BYTES ((size_t)1 << 28)
+static unsigned char *arena = NULL;
+static void *arena_get(size_t n) {
+    if (!arena) arena = malloc(ARENA_BYTES);
+    size_t need = (n ? n : 1);
+    need = (need + 63) & ~(size_t)63;
+    if (!arena || arena_top + need > ARENA_BYTES) { void *p = calloc(1, need); return p; } /* fall back to the C heap */
+    void *p = arena + arena_top;
+    arena_top += need;
+    memset(p, 0, need);
+    return p;
+}
+static int in_arena(void *p) { return arena && (unsigned char *)p >= arena && (unsigned char *)p < arena + ARENA_BYTES; }
+void *vrt_malloc(size_t n) { void *p = arena_get(n); blk_add(p, n); return p; }
+void *vrt_calloc(size_t a, size_t b) { void *p = arena_get(a * b); blk_add(p, a * b); return p; }
+void vrt_free(void *p) {
+    if (!p) return;
+    size_t old = 0;
+    for (int i = 0; i < nblk; i++) if (blk[i].p == p) old = blk[i].n;
+    blk_del(p);
+    if (!in_arena(p)) { free(p); return; }
+    size_t need = ((old ? old : 1) + 63) & ~(size_t)63;
+    if ((unsigned char *)p + need == arena + arena_top) arena_top -= need;
+}
 void *vrt_realloc(void *q, size_t n) {
     size_t old = 0;
     for (int i = 0; i < nblk; i++) if (blk[i].p == q) old = blk[i].n;
-    void *p = calloc(1, n ? n : 1);
-    if (q) { memcpy(p, q, old < n ? old : n); blk_del(q); free(q); }
+    void *p = arena_get(n);
+    if (q) { memcpy(p, q, old < n ? old : n); blk_del(q); if (!in_arena(q)) free(q); }
     blk_add(p, n);
     return p;
 }
-void vrt_free(void *p) { if (p) { blk_del(p); free(p); } }
 int vrt_live_blocks(void) { return nblk; }
 
 #define MAXRG 64
